@@ -101,7 +101,7 @@ func (h *Hooks) Fold(r *core.Result) {
 // ------------------------------------------------------------------ bed
 
 type Opts struct {
-	Topology  string // direct | proxy | fanin
+	Topology  string // direct | proxy | chain | fanin
 	Clients   int
 	Cap       int
 	Serialise bool
@@ -116,6 +116,7 @@ type Bed struct {
 	Impl   *svc.Impl
 	Srv    *goat.Server
 	Links  []*wire.Link // client-side links (index = client)
+	XLinks []*wire.Link // proxy-to-proxy links of the chain topology
 	SLink  *wire.Link   // shared server-side link (proxy / fanin)
 	Conns  []*goat.ClientConn
 	Proxy  *goat.Proxy
@@ -190,6 +191,47 @@ func New(o Opts) *Bed {
 			b.Conns = append(b.Conns, goat.NewClientConn(l.A, ClientName(i), o.SrvName, o.DialOpts...))
 		}
 		go b.Proxy.Serve()
+	case "chain":
+		// client - px1 - px2 - px3 - Demux keyed by source - Serve. A request travels on links each
+		// proxy opens towards the server (attached at the next proxy under the client's name); the
+		// reply follows the recorded route back: a proxy reaches the previous one by writing on the
+		// link the request came in on, and the previous proxy reads it on its outgoing connection.
+		const hops = 3
+		b.SLink = wire.NewLink(o.Cap, o.Serialise)
+		b.Demux = goat.NewDemux(b.Ctx, b.SLink.B,
+			func(r *goat.Rpc) string { return r.GetHeader().GetSource() },
+			func(rw goat.RpcReadWriter) { serve(rw) })
+		go b.Demux.Run()
+		l0 := wire.NewLink(o.Cap, o.Serialise)
+		b.Links = append(b.Links, l0)
+		in := []*wire.Link{l0} // in[i]: the link on which proxy i+1 receives the client's traffic
+		for i := 1; i < hops; i++ {
+			x := wire.NewLink(o.Cap, o.Serialise)
+			b.XLinks = append(b.XLinks, x)
+			in = append(in, x)
+		}
+		pxName := func(i int) string { return fmt.Sprintf("px%d", i) }
+		for i := 1; i <= hops; i++ {
+			i := i
+			px := goat.NewProxy(b.Ctx, pxName(i),
+				func(id string) (goat.RpcReadWriter, error) {
+					switch {
+					case id == o.SrvName && i == hops:
+						return b.SLink.A, nil
+					case id == o.SrvName:
+						return in[i].A, nil
+					case i > 1 && id == pxName(i-1):
+						return writeOnly{in[i-1].B}, nil
+					}
+					return nil, fmt.Errorf("%s: unknown peer %q", pxName(i), id)
+				}, nil, nil)
+			px.AddClient(ClientName(0), in[i-1].B)
+			go px.Serve()
+			if i == 1 {
+				b.Proxy = px
+			}
+		}
+		b.Conns = append(b.Conns, goat.NewClientConn(l0.A, ClientName(0), o.SrvName, o.DialOpts...))
 	case "fanin":
 		b.SLink = wire.NewLink(o.Cap, o.Serialise)
 		b.Demux = goat.NewDemux(b.Ctx, b.SLink.B,
@@ -224,6 +266,9 @@ func (b *Bed) Close() {
 	for _, l := range b.Links {
 		l.Kill()
 	}
+	for _, l := range b.XLinks {
+		l.Kill()
+	}
 	if b.SLink != nil {
 		b.SLink.Kill()
 	}
@@ -241,6 +286,17 @@ func Hygiene(watchdog time.Duration) (left []*quiesce.G, final bool) {
 	}
 	return snap.Goat(), final
 }
+
+// writeOnly is the sending half of a link end that another attachment of the
+// same proxy already reads from.
+type writeOnly struct{ end goat.RpcReadWriter }
+
+func (w writeOnly) Read(ctx context.Context) (*wire.Rpc, error) {
+	<-ctx.Done()
+	return nil, ctx.Err()
+}
+
+func (w writeOnly) Write(ctx context.Context, r *wire.Rpc) error { return w.end.Write(ctx, r) }
 
 // ------------------------------------------------------------------ fan-in
 
